@@ -145,6 +145,11 @@ func (route *SendFirstMatch) Dispatch(buf []byte) {
 
 func (route *ConsistentHashing) Dispatch(buf []byte) {
 	conf := route.config.Load().(consistentHashingConfig)
+	if len(conf.Dests()) == 0 {
+		// e.g. all destinations were deleted: there is no ring to pick from
+		log.Errorf("route %s has no destinations, dropping %s", route.key, buf)
+		return
+	}
 	if pos := bytes.IndexByte(buf, ' '); pos > 0 {
 		name := buf[0:pos]
 		dest := conf.Dests()[conf.Hasher.GetDestinationIndex(name)]
